@@ -80,9 +80,9 @@ func (c *c06Case) String() string {
 }
 
 type c06Meta struct {
-	metrics [256]*format.MetricMetaValue
-	groups  [32]*format.MetricsGroup
-	nss     [4]*format.NamespaceMeta
+	metrics [512]*format.MetricMetaValue
+	groups  [64]*format.MetricsGroup
+	nss     [8]*format.NamespaceMeta
 }
 
 func (m *c06Meta) GetMetaMetric(id int32) *format.MetricMetaValue {
@@ -1068,7 +1068,7 @@ func c06CountBy(fixed, quota bool, leaves int) {
 
 func TestVerifC06(t *testing.T) {
 	rep := mc.NewReport("C06")
-	rep.Rule = "every hierarchy shape (1-2 namespaces x 1-2 groups x 1-2 metrics x plain / 1 / 2 fair-key values, unordered siblings) with at most L leaves; every leaf size from the alphabet (rows x row size); every weight from W for every node that has a sibling under the option flags; every budget; all 8 combinations of SampleNamespaces/SampleGroups/SampleKeys; plus one fixed-budget metric (SampleBudgets) and quota mode (SampleQuota, hosts with unequal reported sizes). Non-trivial = the bucket does not fit the budget and at least two metrics compete, so some partition is sampled while a sibling draws on the same parent budget"
+	rep.Rule = "every hierarchy shape (1-2 namespaces x 1-2 groups x 1-2 metrics x plain / 1 / 2 fair-key values, unordered siblings) with at most L leaves, plus six wide shapes with three siblings at one level under every ordered weight triple; every leaf size from the alphabet (rows x row size); every weight from W for every node that has a sibling under the option flags; every budget; all 8 combinations of SampleNamespaces/SampleGroups/SampleKeys; plus one fixed-budget metric (SampleBudgets) and quota mode (SampleQuota, hosts with unequal reported sizes). Non-trivial = the bucket does not fit the budget and at least two metrics compete, so some partition is sampled while a sibling draws on the same parent budget"
 	// row sizes are >= 2: a zero budget is clamped to 1 by the sampler, which would let exactly one 1-byte row
 	// through (real rows are never 1 byte: the key alone is larger)
 	sizes5 := []c06Size{{1, 2}, {2, 2}, {5, 2}, {1, 10}, {4, 10}}
@@ -1146,6 +1146,28 @@ func TestVerifC06(t *testing.T) {
 				jobs = append(jobs, j)
 			}
 		}
+	}
+	// wide shapes: THREE siblings at one level (the recursive generator above stops at two), every ordered
+	// weight triple of {1,2,3} for the sibling level
+	P := c06MShape{false, 1}
+	wide := []c06Shape{
+		{{{P, P, P}}},                  // 3 metrics in one group
+		{{{P}, {P}, {P}}},              // 3 groups in one namespace
+		{{{P}}, {{P}}, {{P}}},          // 3 namespaces
+		{{{c06MShape{true, 3}}}},       // 3 fair-key values in one metric
+		{{{P, c06MShape{true, 2}, P}}}, // 3 metrics, the middle one with 2 fair-key values
+		{{{P}, {P, P}, {P}}},           // 3 groups, the middle one with 2 metrics
+	}
+	wideSizes := mc.Pick(sizes3, sizes5)
+	wideBudgets := mc.Pick([]int64{0, 4, 10, 20, 60, 20000}, bFull)
+	rep.Bounds["sample_mode_wide_shapes"] = fmt.Sprintf("3 metrics in a group / 3 groups in a namespace / 3 namespaces / 3 fair-key values / 3 metrics one of them with 2 keys / 3 groups one of them with 2 metrics: leaf sizes %v, weights: all ordered triples over %v, budgets %v (the two 4-leaf shapes: sizes %v, budgets %v)", wideSizes, w3, wideBudgets, mc.Pick(sizes2, sizes3), mc.Pick([]int64{4, 20, 60}, wideBudgets))
+	for i, sh := range wide {
+		sz, bs := wideSizes, wideBudgets
+		if i >= 4 { // 4 leaves: reduced size alphabet (and, in the quick tier, budgets)
+			sz = mc.Pick(sizes2, sizes3)
+			bs = mc.Pick([]int64{4, 20, 60}, wideBudgets)
+		}
+		addJob(job{shape: sh, sizes: sz, weights: w3, budgets: bs})
 	}
 	for _, tr := range sampleTiers {
 		for _, sh := range c06Shapes(tr.leaves) {
